@@ -132,15 +132,39 @@ def u2(rep, w):
                 funnel = any(q[0][0] == 'call' and q[0][2] in FUNNEL for q in paths)
                 r.ok(key + (' (through the bounded-index funnel)' if funnel else ' (not program-supplied)'), sample=funnel)
     # the funnel really bounds: try_as_bounded_index returns Ok only after `index < 0 || index >= bound` refused
+    # (stated without fixing the spelling: somewhere in the funnel - or in a helper that this tree adds and the funnel calls - the index is
+    # compared with zero and with a length; which operators are used, and in which of the two functions, is the author's business)
+    import json, os
+    known = set(json.load(open(os.path.join(os.path.dirname(os.path.abspath(__file__)), 'tables', 'known_fns.json'))))
+
+    def bound_tests(f):
+        fs = [f]
+        for _, t in f.calls():
+            g = w.fns.get(callee_name(t) or '')
+            if g is not None and g.path not in known and g.crate is w.yarel and g not in fs:
+                fs.append(g)
+        zero = var = 0
+        for g in fs:
+            for b in g.blocks:
+                for s_ in b['s']:
+                    rr = s_.get('r', {})
+                    if rr.get('rv') == 'bin' and rr['op'] in ('Lt', 'Ge', 'Gt', 'Le', 'Eq', 'Ne'):
+                        ka, kb = op_const(rr['a']), op_const(rr['b'])
+                        ta = g.crate.tstr(g.local_ty(op_place(rr['a'])['l'])) if op_place(rr['a']) and not op_place(rr['a']).get('p') else ''
+                        if (ka is not None and ka.get('v') == 0) or (kb is not None and kb.get('v') == 0):
+                            zero += 1
+                        elif ka is None and kb is None and ta in ('isize', 'usize', 'i64'):
+                            var += 1
+        return zero, var
     tb = w.require_fn('yarel::value::Value::try_as_bounded_index', 'C13')
-    cmps = [s['r']['op'] for b in tb.blocks for s in b['s'] if s.get('r', {}).get('rv') == 'bin' and s['r']['op'] in ('Lt', 'Ge', 'Gt', 'Le')]
     vi = [bi for bi, t in tb.calls() if callee_name(t) == 'yarel::utils::validate_integer']
-    r.check('Lt' in cmps and 'Ge' in cmps and bool(vi), 'try_as_bounded_index: validate_integer, then 0 <= index < bound',
-            'try_as_bounded_index no longer refuses index < 0 or index >= bound (comparisons %s)' % cmps, tb.loc())
+    z, v = bound_tests(tb)
+    r.check(z >= 1 and v >= 1 and bool(vi), 'try_as_bounded_index: validate_integer, then 0 <= index < bound',
+            'try_as_bounded_index no longer compares the index with zero and with the bound (%d / %d such comparisons)' % (z, v), tb.loc())
     mb = w.require_fn('yarel::object::ObjRange::make_bounded_range', 'C13')
-    cmps = [s['r']['op'] for b in mb.blocks for s in b['s'] if s.get('r', {}).get('rv') == 'bin' and s['r']['op'] in ('Lt', 'Ge', 'Gt', 'Le')]
-    r.check(cmps.count('Lt') >= 3 and 'Ge' in cmps and 'Gt' in cmps, 'make_bounded_range: 0 <= begin < limit, 0 <= end <= limit, end >= begin',
-            'make_bounded_range comparisons changed: %s' % cmps, mb.loc())
+    z, v = bound_tests(mb)
+    r.check(z >= 1 and v >= 2, 'make_bounded_range: 0 <= begin < limit, 0 <= end <= limit, end >= begin',
+            'make_bounded_range no longer compares both ends with zero and with the limit (%d / %d such comparisons)' % (z, v), mb.loc())
     validate_integer_shape(r, w, 'C13')
 
 
